@@ -436,6 +436,27 @@ class Program:
             out[k.arg] = k.value
         return target, out
 
+    def inlined_away(self, qual: str) -> bool:
+        """qual is a function outside the rule inventory that the normal form
+        has inlined into every one of its callers (no call by that name is
+        left anywhere): module sweeping rules look at it there, not on its
+        own."""
+        if qual not in self.norm_report.get("new_functions", []):
+            return False
+        if not any(h == qual for _c, h in self.norm_report.get("inlined", [])):
+            return False
+        name = qual.split(":")[1].split(".")[-1]
+        for fi in self.functions.values():
+            if fi.qual == qual:
+                continue
+            for n in ast.walk(fi.node):
+                if isinstance(n, ast.Call):
+                    f = n.func
+                    if (isinstance(f, ast.Name) and f.id == name) or (
+                            isinstance(f, ast.Attribute) and f.attr == name):
+                        return False
+        return True
+
     def signature_of(self, name: str) -> tuple[str, ...] | None:
         """Positional parameter names (without self / cls) of the package
         callable `name`, when all definitions of that name agree."""
